@@ -544,6 +544,8 @@ class _ChainResolver:
 def check(ctx, rep):
     from . import metarules, shared
     _check_main(ctx, rep)
+    from . import metarules, r5rules
+    r5rules.property_rules(ctx, rep, "C03.PROP", ("order",))
     metarules.inherited_rebuild(ctx, rep, "C03.META")
     from .c15 import shapes_rule
     shapes_rule(ctx, rep, "C03.CT")     # the checker every route relies on
